@@ -60,11 +60,11 @@ def check_range_gate(ctx, fb):
             continue
         rv = eng.value_of(p.store, p.ret)
         if known_ok(rv) is True:
-            cs = [(a, v) for a, v in p.conds() if a[0] == "b" and a[1][0] == "cmp"]
-            okv = cs
+            # every condition of the accepting path counts: an extra one rejects requests the circuit can satisfy
+            okv = list(p.conds())
     good = False
     why = "accepting path conditions: %s" % [(sh(a, 80), v) for a, v in (okv or [])]
-    if okv and len(okv) == 1:
+    if okv and len(okv) == 1 and okv[0][0][0] == "b" and isinstance(okv[0][0][1], tuple) and okv[0][0][1][0] == "cmp":
         a, v = okv[0]
         op, x, y = a[1][1], a[1][2], a[1][3]
         # accepted iff message_id < limit
@@ -75,6 +75,8 @@ def check_range_gate(ctx, fb):
         if not good:
             why = "Ok is returned when `%s(%s, %s)` is %s: message_id == user_message_limit is accepted although the circuit requires message_id < limit" % (
                 op, "message_id" if x == P(1) else "limit", "limit" if y == P(2) else "message_id", v)
+    if okv and len(okv) != 1:
+        why = "Ok additionally depends on %s: requests with message_id < user_message_limit that the circuit can satisfy are rejected (or unsatisfiable ones accepted)" % [(sh(a, 100), v) for a, v in okv]
     ctx.check(good, "R12-2", "message_id_range_check condition", "Ok exactly when message_id < user_message_limit", why, loc(it))
     # call sites
     users = ["rln::protocol::serialize_witness", "rln::protocol::deserialize_witness", "rln::protocol::rln_witness_from_values", "rln::protocol::proof_values_from_witness",
